@@ -51,6 +51,19 @@ func (l *e2eLog) add(kind string, f string, args ...interface{}) {
 	l.events = append(l.events, fmt.Sprintf("%s %s %s", kind, gZ(l.now()), fmt.Sprintf(f, args...)))
 	l.counts[kind]++
 }
+// do() runs a queue call and logs its success in one critical section of the log, so that no event caused
+// by the call (e.g. the start of a container that the scheduler has just seen Locked) can be logged first
+func (l *e2eLog) do(kind string, uuid string, call func() error) error {
+	l.mtx.Lock()
+	defer l.mtx.Unlock()
+	err := call()
+	if err == nil {
+		l.events = append(l.events, fmt.Sprintf("%s %s %s", kind, gZ(l.now()), gN(e2eUUIDNum(uuid))))
+		l.counts[kind]++
+	}
+	return err
+}
+
 func (l *e2eLog) vmNum(id cloud.InstanceID) int64 {
 	var n int64
 	fmt.Sscanf(string(id), "inst%d,", &n)
@@ -129,25 +142,13 @@ type e2eQueue struct {
 }
 
 func (q e2eQueue) Lock(uuid string) error {
-	err := q.Queue.Lock(uuid)
-	if err == nil {
-		q.log.add("XLock", "%s", gN(e2eUUIDNum(uuid)))
-	}
-	return err
+	return q.log.do("XLock", uuid, func() error { return q.Queue.Lock(uuid) })
 }
 func (q e2eQueue) Unlock(uuid string) error {
-	err := q.Queue.Unlock(uuid)
-	if err == nil {
-		q.log.add("XUnlock", "%s", gN(e2eUUIDNum(uuid)))
-	}
-	return err
+	return q.log.do("XUnlock", uuid, func() error { return q.Queue.Unlock(uuid) })
 }
 func (q e2eQueue) Cancel(uuid string) error {
-	err := q.Queue.Cancel(uuid)
-	if err == nil {
-		q.log.add("XCancel", "%s", gN(e2eUUIDNum(uuid)))
-	}
-	return err
+	return q.log.do("XCancel", uuid, func() error { return q.Queue.Cancel(uuid) })
 }
 
 type e2eParams struct {
